@@ -119,12 +119,12 @@ Proof.
   unfold outer in H.
   destruct (loop1 y (S x0) st0 y) as [s1 yy1] eqn:L1.
   destruct (loop2 (S yy1) (S x0) yy1 s1) as [[o2 x2] y2] eqn:L2.
-  inversion H; subst; clear H.
+  injection H as Ho Hs1 Hy1. subst outs st1 y1.
   apply loop1_inv in L1; [|lia|auto]. destruct L1 as [F1 S1].
   apply loop2_inv in L2; [|auto|lia]. destruct L2 as [E2 [P2 O2]].
   split; auto. split; [lia|].
   intros o Ho. apply in_app_or in Ho. destruct Ho as [Ho|[<-|[]]].
-  - apply O2 in Ho. replace n with (list_sum st1 + S x0 + yy1) by lia. auto.
+  - apply O2 in Ho. replace n with (list_sum s1 + S x0 + yy1) by lia. auto.
   - apply emit_partition; auto. { repeat constructor; lia. } simpl; lia.
 Qed.
 
